@@ -356,5 +356,43 @@ func DatagramFaults(valid []byte) []DatagramFault {
 			out = append(out, DatagramFault{What: fmt.Sprintf("header(major %d, value %d) at offset %d set to %d, datagram ends there", h.Major, h.Value, h.Pos, v), Data: mut[:h.Pos+len(head)]})
 		}
 	}
+	// arrays and maps that hold MORE well-formed elements than a decoder may expect: the last element (pair) is
+	// repeated 1, 2 and 20 times and the count raised accordingly (everything stays well-formed CBOR)
+	for _, h := range CborHeaders(valid) {
+		if (h.Major != 4 && h.Major != 5) || h.Value == 0 || h.Value > 1000 {
+			continue
+		}
+		per := 1
+		if h.Major == 5 {
+			per = 2
+		}
+		off := h.Pos + h.Len
+		lastStart, ok := off, true
+		for k := uint64(0); k < h.Value && ok; k++ {
+			lastStart = off
+			for q := 0; q < per; q++ {
+				n := CborItemLen(valid[off:])
+				if n <= 0 || off+n > len(valid) {
+					ok = false
+					break
+				}
+				off += n
+			}
+		}
+		if !ok {
+			continue
+		}
+		elem := valid[lastStart:off]
+		for _, extra := range []int{1, 2, 20} {
+			mut := append([]byte(nil), valid[:h.Pos]...)
+			mut = append(mut, CborHead(h.Major, h.Value+uint64(extra))...)
+			mut = append(mut, valid[h.Pos+h.Len:off]...)
+			for k := 0; k < extra; k++ {
+				mut = append(mut, elem...)
+			}
+			mut = append(mut, valid[off:]...)
+			out = append(out, DatagramFault{What: fmt.Sprintf("container(major %d) at offset %d grown from %d to %d well-formed elements", h.Major, h.Pos, h.Value, h.Value+uint64(extra)), Data: mut})
+		}
+	}
 	return out
 }
